@@ -307,3 +307,272 @@ def show(bits):
         else:
             out.append('~%s%d' % ('abcdefgh'[b[1]], b[2]))
     return ' '.join(out)
+
+
+# ---------------------------------------------------------------------------------------------- SIMD values
+import re as _re
+_VEC = _re.compile(r'^<(\d+) x i(\d+)>$')
+
+
+def vwidth(ty):
+    """(total width, lane width) of an integer, x86_mmx or integer-vector type"""
+    if ty == 'x86_mmx':
+        return 64, 64
+    m = _VEC.match(ty or '')
+    if m:
+        return int(m.group(1)) * int(m.group(2)), int(m.group(2))
+    if ty in ('double', '<1 x double>'):
+        return 64, 64
+    w = _width(ty or '')
+    return (w, w) if w else (None, None)
+
+
+def _lanes(bits, lw):
+    return [bits[i:i + lw] for i in range(0, len(bits), lw)]
+
+
+def _mulc(X, c, w):
+    """X * c (mod 2^w) for a constant c when the shifted copies never overlap (no carries); None otherwise"""
+    acc = [0] * w
+    for s in range(w):
+        if (c >> s) & 1:
+            sh = ([0] * s + X)[:w]
+            if any(p != 0 and q != 0 for p, q in zip(acc, sh)):
+                return None
+            acc = [_or(p, q) for p, q in zip(acc, sh)]
+    return acc
+
+
+def _cbits(b):
+    return sum(x << i for i, x in enumerate(b)) if all(x in (0, 1) for x in b) else None
+
+
+class SimdInterp(Interp):
+    """Interp extended to x86_mmx / integer vector values (flat bit lists, lane 0 first) and the MMX/SSE2 intrinsics the 565
+    helpers use.  `globals_` maps the name of a global to the integer the analysed program is known to keep there."""
+    def __init__(self, f, arg_bits=None, globals_=None):
+        self.f = f; self.env = {}; self.args = {}; self.unknown = []
+        self.globals_ = globals_ or {}
+        for k, (n, t) in enumerate(f.params):
+            w = vwidth(t)[0]
+            if w:
+                self.args[k] = arg_bits[k] if arg_bits and k in arg_bits else [('in', k, j) for j in range(w)]
+
+    def _ty_of(self, o):
+        if o[0] in ('ce',):
+            return None
+        return Interp._ty_of(self, o)
+
+    def val(self, o, w):
+        k = o[0]
+        if k == 'ce' and o[1] == 'bitcast':
+            return self.val(o[2][0], w)
+        if k == 'fc':
+            return const_bits(int(o[2], 16), w)
+        if k == 'z':
+            return [0] * w
+        if k == 'agg':
+            n = len(o[1]); lw = w // n
+            out = []
+            for e in o[1]:
+                out += self.val(e, lw)
+            return out
+        return Interp.val(self, o, w)
+
+    def run(self):
+        f = self.f
+        order = []; seen = set()
+        def dfs(b):
+            seen.add(b)
+            for s in f.blocks[b].succ:
+                if s not in seen:
+                    dfs(s)
+            order.append(b)
+        dfs(0)
+        ret = None
+        for b in reversed(order):
+            for x in f.blocks[b].insts:
+                self.step(x)
+                if x.op == 'ret' and x.a:
+                    w = vwidth(self._ty_of(x.a[0]))[0]
+                    v = self.val(x.a[0], w or 32)
+                    ret = v if ret is None else [p if p == q else TOP for p, q in zip(ret, v)]
+        return ret
+
+    def _shift(self, A, lw, k, kind):
+        out = []
+        for L in _lanes(A, lw):
+            if k >= lw:
+                out += [0] * lw if kind != 'a' else [L[-1]] * lw
+            elif kind == 'l':
+                out += ([0] * k + L)[:lw]
+            elif kind == 'r':
+                out += (L[k:] + [0] * k)[:lw]
+            else:
+                out += (L[k:] + [L[-1]] * k)[:lw]
+        return out
+
+    def _packus(self, A, B, src, dst):
+        out = []
+        for L in _lanes(A, src) + _lanes(B, src):
+            # unsigned saturation of a signed lane: the low bits when everything above them is known to be zero
+            out += L[:dst] if all(b == 0 for b in L[dst:]) else [TOP] * dst
+        return out
+
+    def _unpack(self, A, B, lw, high):
+        la, lb = _lanes(A, lw), _lanes(B, lw)
+        n = len(la) // 2
+        idx = range(n, 2 * n) if high else range(n)
+        out = []
+        for i in idx:
+            out += la[i] + lb[i]
+        return out
+
+    def step(self, x):
+        w, lw = vwidth(x.ty)
+        op = x.op
+        vec = w is not None and (x.ty == 'x86_mmx' or x.ty.startswith('<'))
+        if op == 'bitcast' and w:
+            self.env[x.i] = self.val(x.a[0], w); return
+        if op == 'load' and w and x.a[0][0] == 'g':
+            g = self.globals_.get(x.a[0][1])
+            self.env[x.i] = const_bits(g, w) if g is not None else [TOP] * w
+            if g is None:
+                self.unknown.append(x)
+            return
+        if vec and op in ('and', 'or', 'xor'):
+            A = self.val(x.a[0], w); B = self.val(x.a[1], w)
+            fn = {'and': _and, 'or': _or, 'xor': _xor}[op]
+            self.env[x.i] = [fn(p, q) for p, q in zip(A, B)]; return
+        if vec and op in ('shl', 'lshr', 'ashr'):
+            A = self.val(x.a[0], w); K = _lanes(self.val(x.a[1], w), lw)
+            ks = [_cbits(k) for k in K]
+            if None in ks:
+                self.env[x.i] = [TOP] * w; self.unknown.append(x); return
+            out = []
+            for L, k in zip(_lanes(A, lw), ks):
+                out += self._shift(L, lw, k, {'shl': 'l', 'lshr': 'r', 'ashr': 'a'}[op])
+            self.env[x.i] = out; return
+        if vec and op == 'mul':
+            A = self.val(x.a[0], w); B = self.val(x.a[1], w)
+            out = []
+            for p, q in zip(_lanes(A, lw), _lanes(B, lw)):
+                c = _cbits(q); X = p
+                if c is None:
+                    c = _cbits(p); X = q
+                r = _mulc(X, c, lw) if c is not None else None
+                out += r if r is not None else [TOP] * lw
+            self.env[x.i] = out; return
+        if vec and op == 'shufflevector':
+            sty = self._ty_of(x.a[0]); sw, slw = vwidth(sty)
+            cat = _lanes(self.val(x.a[0], sw), slw) + _lanes(self.val(x.a[1], sw), slw)
+            out = []
+            for m in x.d.get('mask', []):
+                out += cat[m] if 0 <= m < len(cat) else [TOP] * slw
+            self.env[x.i] = out; return
+        if op == 'insertelement' and vec:
+            A = self.val(x.a[0], w); k = self.cval(x.a[2], 64)
+            if k is None or k * lw >= w:
+                self.env[x.i] = [TOP] * w; self.unknown.append(x)
+            else:
+                self.env[x.i] = A[:k * lw] + self.val(x.a[1], lw) + A[(k + 1) * lw:]
+            return
+        if op == 'extractelement':
+            sty = self._ty_of(x.a[0]); sw, slw = vwidth(sty) if sty else (None, None)
+            k = self.cval(x.a[1], 64)
+            if sw is None and sty and sty.startswith('<1 x '):
+                # <1 x double> and the like: the single element is the whole value
+                sw = slw = 64; k = 0
+            if sw is None or k is None:
+                if w:
+                    self.env[x.i] = [TOP] * w; self.unknown.append(x)
+            else:
+                self.env[x.i] = self.val(x.a[0], sw)[k * slw:(k + 1) * slw]
+            return
+        if op == 'bitcast' and x.ty in ('double', '<1 x double>', '<1 x i64>'):
+            self.env[x.i] = self.val(x.a[0], 64); return
+        if op == 'call' and x.callee is None and x.d.get('asm', '').split() [:1] == ['pshufw'] and len(x.a) == 2:
+            A = self.val(x.a[0], 64); k = self.cval(x.a[1], 8)
+            la = _lanes(A, 16)
+            if k is None:
+                self.env[x.i] = [TOP] * 64; self.unknown.append(x)
+            else:
+                self.env[x.i] = sum((la[(k >> (2 * i)) & 3] for i in range(4)), [])
+            return
+        if op == 'call' and isinstance(x.callee, str) and x.callee.startswith(('llvm.x86.mmx.', 'llvm.x86.sse2.')):
+            nm = x.callee.split('.', 3)[3]
+            full = 128 if x.callee.startswith('llvm.x86.sse2.') else 64
+            nm = nm[:-4] if nm.endswith('.128') else nm
+            A = self.val(x.a[0], full)
+            m = _re.match(r'^ps(ll|rl|ra)i\.([wdq])$', nm)
+            if m:
+                k = self.cval(x.a[1], 32)
+                l_ = {'w': 16, 'd': 32, 'q': 64}[m.group(2)]
+                if k is None:
+                    self.env[x.i] = [TOP] * full; self.unknown.append(x)
+                else:
+                    self.env[x.i] = self._shift(A, l_, k, {'ll': 'l', 'rl': 'r', 'ra': 'a'}[m.group(1)])
+                return
+            B = self.val(x.a[1], full) if len(x.a) > 1 else None
+            if nm in ('por', 'pand', 'pxor'):
+                fn = {'por': _or, 'pand': _and, 'pxor': _xor}[nm]
+                self.env[x.i] = [fn(p, q) for p, q in zip(A, B)]; return
+            if nm == 'pandn':
+                self.env[x.i] = [_and(_neg(p), q) for p, q in zip(A, B)]; return
+            if nm == 'pmull.w':
+                out = []
+                for p, q in zip(_lanes(A, 16), _lanes(B, 16)):
+                    c = _cbits(q); X = p
+                    if c is None:
+                        c = _cbits(p); X = q
+                    r = _mulc(X, c, 16) if c is not None else None
+                    out += r if r is not None else [TOP] * 16
+                self.env[x.i] = out; return
+            if nm == 'pmadd.wd':
+                la, lb = _lanes(A, 16), _lanes(B, 16)
+                out = []
+                for i in range(0, len(la), 2):
+                    acc = [0] * 32
+                    for p, q in ((la[i], lb[i]), (la[i + 1], lb[i + 1])):
+                        c = _cbits(q); X = p
+                        if c is None:
+                            c = _cbits(p); X = q
+                        if c is None or c >> 15 or acc is None:
+                            acc = None; break
+                        r = _mulc(X + [X[-1]] * 16, c, 32)
+                        if r is None or any(u != 0 and v != 0 for u, v in zip(acc, r)):
+                            acc = None; break
+                        acc = [_or(u, v) for u, v in zip(acc, r)]
+                    out += acc if acc is not None else [TOP] * 32
+                self.env[x.i] = out; return
+            if nm == 'packuswb':
+                self.env[x.i] = self._packus(A, B, 16, 8); return
+            m = _re.match(r'^punpck([lh])(bw|wd|dq)$', nm)
+            if m:
+                self.env[x.i] = self._unpack(A, B, {'bw': 8, 'wd': 16, 'dq': 32}[m.group(2)], m.group(1) == 'h'); return
+            if nm.startswith('pcmpeq.') and x.a[0] == x.a[1]:
+                self.env[x.i] = [1] * full; return
+            if nm in ('pshuf.w', 'pshufl.w'):
+                k = self.cval(x.a[1], 8)
+                la = _lanes(A, 16)
+                if k is None:
+                    self.env[x.i] = [TOP] * full; self.unknown.append(x)
+                else:
+                    out = []
+                    for i in range(4):
+                        out += la[(k >> (2 * i)) & 3]
+                    for L in la[4:]:
+                        out += L
+                    self.env[x.i] = out
+                return
+            if w:
+                self.env[x.i] = [TOP] * w; self.unknown.append(x)
+            return
+        if vec and op not in ('ret', 'br', 'store'):
+            self.env[x.i] = [TOP] * w; self.unknown.append(x); return
+        return Interp.step(self, x)
+
+
+def simd_provenance(f, arg_bits=None, globals_=None):
+    it = SimdInterp(f, arg_bits, globals_)
+    return it.run(), it
